@@ -54,15 +54,83 @@ def snapshot_cycle(w, gwy, t: E.Tally, rep: dict, where: str, include_expired: b
     w.loop.exc.clear()
 
 
+def restore_race(lines: list, upto: int, eav: bool, t: E.Tally, rep: dict, where: str, quick: bool) -> None:
+    """A snapshot requested while a restore is in flight: at every loop iteration k of the restore, get_state() is
+    called (it may refuse); when the restore has finished the gateway must be running."""
+    k = 0
+    while k < 3000:
+        w, gwy = GC.new_world(eavesdrop=eav)
+        try:
+            for ln in lines[:upto]:
+                GC.feed(w, ln)
+            state = gwy.get_state(include_expired=True)
+            task = w.loop.create_task(gwy._restore_cached_packets(state[1]))
+            n = 0
+            while not task.done() and n < k:
+                if w.loop._ready:
+                    w.loop.run_batch()
+                else:
+                    nt = w.loop.next_timer()
+                    if nt is None:
+                        break
+                    w.loop.fire_due(nt)
+                n += 1
+            mid = None
+            if not task.done():
+                try:
+                    gwy.get_state()
+                    mid = "ok"
+                except RuntimeError:
+                    mid = "refused"
+                except Exception as e:  # noqa: BLE001
+                    t.bad(f"C13:get_state-during-restore-raises:{type(e).__name__}", f"{where}: get_state() at iteration {k} of a restore raised {type(e).__name__}: {e}", rep)
+            w.loop.quiesce(w.loop.time() + 30)
+            t.n += 1
+            bad = GC.engine_ok(w, gwy)
+            if not task.done():
+                t.bad("C13:restore-never-finishes", f"{where}: restore still pending after a get_state() at iteration {k}", rep)
+            elif task.exception() is not None and not isinstance(task.exception(), RuntimeError):
+                t.bad(f"C13:restore-raises:{type(task.exception()).__name__}", f"{where}: restore raised {task.exception()!r} (get_state at iteration {k}: {mid})", rep)
+            if bad:
+                t.bad(f"C13:not-running-after-concurrent-snapshot:{bad[0]}", f"{where}: get_state() at iteration {k} of a restore ({mid}); afterwards: {bad}", rep)
+                return
+            if mid is None and k > 0:
+                return  # the restore finished before iteration k: every interleaving point has been tried
+        finally:
+            w.close()
+        k += 1 if not quick else 2
+
+
 def views(gwy, t: E.Tally, rep: dict, where: str) -> None:
     for v, et, msg in GC.eval_views(gwy):
         t.bad(f"C13:view-raises:{v}:{et}", f"{where}: {v} raised {et} ({msg})", rep)
 
 
-def run_history(t: E.Tally, lines: list, rep: dict, *, eavesdrop: bool, check_at: set[int], snap_at: set[int], label: str):
+def _known_state(gwy) -> dict:
+    out = {}
+    for cid, tcs in gwy.system_by_id.items():
+        try:
+            out[cid] = json.dumps([tcs.schema, tcs.params, tcs.status], sort_keys=True, default=str)
+        except Exception:  # noqa: BLE001
+            pass
+    return out
+
+
+def run_history(t: E.Tally, lines: list, rep: dict, *, eavesdrop: bool, check_at: set[int], snap_at: set[int], label: str, quiet_span=None):
     w, gwy = GC.new_world(eavesdrop=eavesdrop)
+    before = None
     try:
         for k, ln in enumerate(lines):
+            if quiet_span and k == quiet_span[0]:
+                _known_state(gwy)  # (a read that finds a message expired still returns it and only then drops it:
+                w.loop.settle()  # warm up once so that the comparison is not about expiry)
+                before = _known_state(gwy)
+            if quiet_span and k == quiet_span[1] and before is not None:
+                after = _known_state(gwy)
+                for cid, want in before.items():
+                    if after.get(cid) != want:
+                        t.bad("C13:neighbour-traffic-changes-known-system", f"{label}: schema/params/status of {cid} changed while only a neighbour's packets (lines {quiet_span[0]}..{quiet_span[1] - 1}) were received", rep)
+                        break
             try:
                 GC.feed(w, ln)
             except Exception as e:  # noqa: BLE001
@@ -107,6 +175,8 @@ def shard_base(arg) -> E.Tally:
     run_history(t, lines, {"log": rel, "eav": eav, "edit": None}, eavesdrop=eav, check_at=set(range(n)), snap_at=set(range(0, n, stride)) | {n - 1}, label=f"{rel}")
     t.nontrivial += 1
     t.by["packets"] += n
+    if n <= 120 or not quick:
+        restore_race(lines, min(n, 60), eav, t, {"log": rel, "eav": eav, "edit": None}, f"{rel}[:{min(n, 60)}]", quick)
     return t
 
 
@@ -116,33 +186,25 @@ def shard_edits(arg) -> E.Tally:
     t = E.Tally()
     lines = GC.log(rel)
     splice = [GC.log(o) for o in others]
-    base = None
     for j, (lab, pos, hist) in enumerate(GC.single_edits(lines, splice_from=splice)):
         if j % nsh != i:
             continue
         hist = GC.retime(hist)
         n = len(hist)
         check = {p for p in (pos - 1, pos, pos + 1, pos + 2, pos + 3, n - 1) if 0 <= p < n} | set(range(pos, n, 25))
-        if lab.startswith("splice"):
-            check |= set(range(pos, min(n, pos + 41), 4))
+        if lab.startswith("splice") or lab.startswith("clone"):
+            check |= set(range(pos, min(n, pos + 46), 4))
         snap = {p for p in (pos + 1, pos + 10, n - 1) if 0 <= p < n}
         if lab.startswith("splice") and not eav:
             snap = {n - 1}  # (a snapshot cycle injects a probe packet: keep the run comparable with the unspliced one)
         rep = {"log": rel, "eav": eav, "edit": lab, "others": others}
-        res = run_history(t, hist, rep, eavesdrop=eav, check_at=check, snap_at=snap, label=f"{rel}[{lab}]")
+        span = None
+        if (lab.startswith("splice") or lab.startswith("clone")) and not eav and not _splits_fragments(lines, pos):
+            span = (pos, pos + (n - len(lines)))
+            snap = {n - 1}
+        res = run_history(t, hist, rep, eavesdrop=eav, check_at=check - (set(range(span[0], span[1])) if span else set()), snap_at=snap, label=f"{rel}[{lab}]", quiet_span=span)
         t.nontrivial += 1
         t.by[lab.split("@")[0].rstrip("0123456789")] += 1
-        if lab.startswith("splice") and not eav and res is not None and not _splits_fragments(lines, pos):
-            # the known system keeps being tracked exactly as without the neighbour's packets
-            # (both runs un-probed: evaluating views ages/deletes expired messages, a probe packet changes status)
-            tp = E.Tally()
-            res = run_history(tp, hist, rep, eavesdrop=False, check_at=set(), snap_at=set(), label="spliced, unprobed")
-            if base is None:
-                tb = E.Tally()
-                base = run_history(tb, GC.retime(lines), rep, eavesdrop=False, check_at=set(), snap_at=set(), label="baseline")
-            for cid, want in (base or {}).items():
-                if (res or {}).get(cid) != want:
-                    t.bad("C13:neighbour-traffic-changes-known-system", f"{rel}[{lab}]: schema/params/status of {cid} differ from the run without the spliced packets", rep)
         if j % 601 == 0:
             t.sample({"log": rel, "edit": lab, "eavesdrop": eav, "length": n})
     return t
@@ -150,7 +212,7 @@ def shard_edits(arg) -> E.Tally:
 
 def _ids(rel: str) -> set[str]:
     out = set()
-    for _d, _r, fr in GC.log(rel):
+    for _d, _r, fr in GC.log(rel.replace("#digest", "")):
         out.update(a for a in fr.split()[-6:-3] if a not in ("--:------", "63:262142", "18:000730"))
     return out
 
@@ -159,7 +221,7 @@ def plan(quick: bool):
     sys_logs = GC.available(GC.SYSTEM_LOGS)
     oth_logs = GC.available(GC.OTHER_LOGS)
     jobs = []
-    for rel in sys_logs + oth_logs:
+    for rel in sys_logs + oth_logs + GC.parser_logs():
         n = len(GC.log(rel))
         for eav in (False, True):
             if quick and n > 300:
@@ -212,14 +274,9 @@ def replay(rep: dict):
                 hist = GC.retime(hist)
                 n = len(hist)
                 snap = {p for p in (pos + 1, pos + 10, n - 1) if 0 <= p < n}
-                if lab.startswith("splice") and not rep["eav"]:
+                span = None
+                if (lab.startswith("splice") or lab.startswith("clone")) and not rep["eav"] and not _splits_fragments(lines, pos):
+                    span = (pos, pos + (n - len(lines)))
                     snap = {n - 1}
-                res = run_history(t, hist, rep, eavesdrop=rep["eav"], check_at=set(range(max(0, pos - 1), n)), snap_at=snap, label=f"{rep['log']}[{lab}]")
-                if lab.startswith("splice") and not rep["eav"] and res is not None and not _splits_fragments(lines, pos):
-                    res = run_history(E.Tally(), hist, rep, eavesdrop=False, check_at=set(), snap_at=set(), label="spliced, unprobed")
-                    tb = E.Tally()
-                    base = run_history(tb, GC.retime(lines), rep, eavesdrop=False, check_at=set(), snap_at=set(), label="baseline")
-                    for cid, want in (base or {}).items():
-                        if res.get(cid) != want:
-                            t.bad("C13:neighbour-traffic-changes-known-system", f"{rep['log']}[{lab}]", rep)
+                run_history(t, hist, rep, eavesdrop=rep["eav"], check_at=set(range(max(0, pos - 1), n)) - (set(range(span[0], span[1])) if span else set()), snap_at=snap, label=f"{rep['log']}[{lab}]", quiet_span=span)
     return [(k, v["what"]) for k, v in t.viol.items()]
